@@ -50,6 +50,7 @@ type G struct {
 	isLib     bool // started by library code (not by the harness)
 	connTag   *Value
 	exitPanic *targetPanic
+	vc        VC // happens-before vector clock (race detection)
 }
 
 type mutexState struct {
@@ -65,6 +66,7 @@ type timerV struct {
 	active bool
 	id     int
 	cell   *Value // the *time.Timer object
+	vc     VC     // clock of the goroutine that armed the timer
 }
 
 // ---------- running ----------
@@ -116,6 +118,7 @@ func (m *Machine) spawn(fr *Frame, fn Value, args []Value, where string) *G {
 		g.isLib = !isHarnessFunc(fr.fn)
 	}
 	g.state = gRunnable
+	m.hbFork(m.cur, g)
 	m.startHost(g, func() {
 		m.call(nil, 0, fn, args)
 	})
@@ -346,10 +349,12 @@ func (m *Machine) tryCase(fr *Frame, self *G, c chanCase) (done bool, v Value, o
 			p.wait.fired = i
 			p.wait.recvVal = copyVal(c.val)
 			p.wait.recvOk = true
+			m.hbHandoff(self, p, ch)
 			return true, nil, false
 		}
 		if len(ch.buf) < ch.cap {
 			ch.buf = append(ch.buf, copyVal(c.val))
+			m.hbSendBuffered(self, ch)
 			return true, nil, false
 		}
 		return false, nil, false
@@ -357,19 +362,23 @@ func (m *Machine) tryCase(fr *Frame, self *G, c chanCase) (done bool, v Value, o
 	if len(ch.buf) > 0 {
 		v = ch.buf[0]
 		ch.buf = ch.buf[1:]
+		m.hbRecvBuffered(self, ch)
 		// a blocked sender can now move its value into the buffer
 		if p, i := m.partner(self, ch, true); p != nil {
 			ch.buf = append(ch.buf, copyVal(p.wait.cases[i].val))
 			p.wait.fired = i
+			m.hbSendBuffered(p, ch)
 		}
 		return true, v, true
 	}
 	if p, i := m.partner(self, ch, true); p != nil {
 		v = copyVal(p.wait.cases[i].val)
 		p.wait.fired = i
+		m.hbHandoff(p, self, ch)
 		return true, v, true
 	}
 	if ch.closed {
+		m.hbRecvClosed(self, ch)
 		return true, nil, false
 	}
 	return false, nil, false
@@ -419,6 +428,7 @@ func (m *Machine) chanClose(fr *Frame, ch *ChanV) {
 		m.runtimePanic(fr, "close of closed channel")
 	}
 	ch.closed = true
+	m.hbClose(m.cur, ch)
 	m.syncPoint(fr)
 }
 
@@ -496,6 +506,8 @@ func (m *Machine) mutexLock(fr *Frame, p *Value) {
 	}
 	ms.locked = true
 	ms.owner = g.id
+	m.hbAcquire(ms)
+	m.hbAcquire(&ms.readers)
 }
 
 func (m *Machine) mutexTryLock(fr *Frame, p *Value) bool {
@@ -505,6 +517,8 @@ func (m *Machine) mutexTryLock(fr *Frame, p *Value) bool {
 	}
 	ms.locked = true
 	ms.owner = m.cur.id
+	m.hbAcquire(ms)
+	m.hbAcquire(&ms.readers)
 	return true
 }
 
@@ -514,6 +528,7 @@ func (m *Machine) mutexUnlock(fr *Frame, p *Value) {
 		panic(targetPanic{runtime: "sync: unlock of unlocked mutex", where: fr.where()})
 	}
 	ms.locked = false
+	m.hbRelease(ms)
 	m.syncPoint(fr)
 }
 
@@ -526,6 +541,7 @@ func (m *Machine) mutexRLock(fr *Frame, p *Value) {
 		g.wait = nil
 	}
 	ms.readers++
+	m.hbAcquire(ms)
 }
 
 func (m *Machine) mutexRUnlock(fr *Frame, p *Value) {
@@ -534,6 +550,7 @@ func (m *Machine) mutexRUnlock(fr *Frame, p *Value) {
 		panic(targetPanic{runtime: "sync: RUnlock of unlocked RWMutex", where: fr.where()})
 	}
 	ms.readers--
+	m.hbRelease(&ms.readers)
 	m.syncPoint(fr)
 }
 
@@ -548,6 +565,10 @@ func (m *Machine) addTimer(d int64, fn Value, ch *ChanV, cell *Value) *timerV {
 		when = int64(^uint64(0) >> 1)
 	}
 	t := &timerV{when: when, fn: fn, ch: ch, active: true, id: len(m.timers), cell: cell}
+	if m.race.on && m.cur != nil {
+		t.vc = vcCopy(m.gvc(m.cur))
+		m.tick(m.cur)
+	}
 	m.timers = append(m.timers, t)
 	return t
 }
@@ -594,11 +615,19 @@ func (m *Machine) fireTimer(t *timerV) {
 		g := m.newG(fmt.Sprintf("timer#%d", t.id))
 		g.isLib = true
 		g.state = gRunnable
+		if m.race.on {
+			g.vc = vcCopy(t.vc)
+			m.gvc(g)
+		}
 		m.startHost(g, func() { m.call(nil, 0, fn, nil) })
 		return
 	}
 	if t.ch != nil && len(t.ch.buf) < t.ch.cap {
 		t.ch.buf = append(t.ch.buf, m.timeValue(m.clock))
+		if m.race.on {
+			t.ch.bufVC = append(t.ch.bufVC, vcCopy(t.vc))
+			t.ch.sendN++
+		}
 	}
 }
 
